@@ -164,9 +164,20 @@ def run(tier):
             if t[1] == "c" and int(t[2]) == mi:
                 costs.append(gen.cost_units(bytes.fromhex(t[4]) if t[4] not in (".", "-") else b"", 20))
         avg = max(1.0, sum(costs) / max(1, len(costs)))
-        iters = int(min(3000, max(40, (250000 if tier == "quick" else 1500000) / avg)))
+        iters = int(min(4000, max(60, (900000 if tier == "quick" else 4000000) / avg)))
         owork.append((opt_path, lines, 8, iters, run_.seed * 31 + mi, "opt-hammer", mi))
-    for acc in pool.pmap(do_run, owork, nproc=2):
+    for acc in pool.pmap(do_run, owork, nproc=4):
+        run_.merge(acc)
+    # a few LARGE hashes at the same time (512 MiB each, 1.5-2 GiB together): what concurrent calls share may be a
+    # budget rather than a buffer.  -O2 build, judged by the sequential table.
+    big = ["mapcap %d" % (1 << 30)]
+    for i, s in enumerate((b"$7$F" + gen.enc64_le(32, 5) + gen.enc64_le(1, 5) + b"saltsalt",        # N = 2^17, r = 32
+                           b"$7$F" + gen.enc64_le(32, 5) + gen.enc64_le(1, 5) + b"otherSalt",
+                           b"$y$jET$" + gen.yes_encode64(b"0123456789abcdef"),                         # 512 MiB as well
+                           b"$7$E" + gen.enc64_le(32, 5) + gen.enc64_le(1, 5) + b"saltsalt")):
+        mid = gen.MID["yescrypt" if s.startswith(b"$y$") else "scrypt"]
+        big.append("mtadd c %d %s %s" % (mid, pool.hx(b"big phrase %d" % i), pool.hx(s)))
+    for acc in pool.pmap(do_run, [(rt.PATHS["vw-opt"], big, 4, 2, run_.seed * 17 + 3, "big-overlap", -1)], nproc=1):
         run_.merge(acc)
     # the mixed run again on a TSan build that has to use the library's own explicit_bzero (a C library without
     # one): other shared state may live there
